@@ -17,6 +17,8 @@ func init() {
 			"parallel fetches and defer groups use a plain errgroup.Group (siblings are never cancelled) that is joined on every path; a failed single-flight leader always releases its followers. " +
 			"It does not decide that unaffected data is identical nor that requests under fault are a subset of the fault-free requests (value level).",
 		Mutants: []Mutant{
+			{Name: "failed subgraph loads stay in the in-flight table (seeded change C07-13)", File: "v2/pkg/engine/resolve/subgraph_request_singleflight.go", Rule: "C07-R6", Key: "SubgraphRequestSingleFlight.Finish/removed-before-close",
+				Old: "\tshard.items.Delete(item.SFKey)\n\tclose(item.loaded)\n", New: "\tif len(item.response) == 0 {\n\t\tclose(item.loaded)\n\t\treturn\n\t}\n\tshard.items.Delete(item.SFKey)\n\tclose(item.loaded)\n"},
 			{Name: "empty body merged as data", File: loaderGo, Rule: "C07-R1", Key: "has-body",
 				Old: "\tif len(res.out) == 0 {\n\t\treturn l.renderErrorsFailedToFetch(fetchItem, res, emptyGraphQLResponse)\n\t}\n", New: ""},
 			{Name: "entity count check dropped before the indexed merge", File: loaderGo, Rule: "C07-R1", Key: "entity-count",
@@ -431,8 +433,9 @@ func runC07(r *fw.Run) {
 	r.Expect("C07-R5", "functions spawning on an errgroup", nSpawnFns, 2)
 
 	// ---- R6 failed leader releases followers (shared with C11-R1) -------------------------------
-	r.Rule("C07-R6", "the single-flight leader in loadByContext reaches Finish(item) exactly once on every exit, so a failed load always releases the followers (gateway still returns promptly)")
+	r.Rule("C07-R6", "the single-flight leader in loadByContext reaches Finish(item) exactly once on every exit, so a failed load always releases the followers (gateway still returns promptly); Finish removes the item from the in-flight table before the wake-up on every path (a failed load never poisons later identical requests)")
 	checkLoadByContextFinish(r, "C07-R6")
+	checkRemovedBeforeClose(r, "C07-R6", false)
 }
 
 func enclosingBlock(stack []ast.Node) *ast.BlockStmt {
